@@ -120,6 +120,39 @@ static TableD grid_table(vp::Rng &r) {
 }
 
 // a register inside an area that ends exactly at 2^32 lies entirely inside an area: the table is well-formed
+// Areas of one table that share backing storage: a read-only mirror (or a window into it) of a read/write area at another address - an
+// ordinary register-map construction; `.mem` is a caller-supplied pointer and nothing asks for disjoint storage. Every default that gets
+// loaded is acceptable to its register and is what the register holds once register_init has returned SUCCESS - in whichever order the
+// areas come.
+static void mirror_phase() {
+    for (int variant = 0; variant < 8; variant++) {
+        bool mirror_first = variant & 1, window = variant & 2, big = variant & 4;
+        std::string rep = vp::fmt("mirror %d\n", variant);
+        vp::CaseScope scope([rep] { return rep; });
+        uint16_t store[8]; for (auto &w : store) w = 0xbeef;
+        RegisterArea areas[3]; RegisterEntry entries[4]; RegisterTable t;
+        memset(areas, 0, sizeof areas); memset(entries, 0, sizeof entries); memset(&t, 0, sizeof t);
+        uint32_t rw_base = mirror_first ? 0x40 : 0x10, ro_base = mirror_first ? 0x10 : 0x40;
+        RegisterArea &rw = areas[mirror_first ? 1 : 0], &ro = areas[mirror_first ? 0 : 1];
+        rw.flags = REG_AF_RW; rw.base = rw_base; rw.size = 8; rw.read = reg_mem_read; rw.write = reg_mem_write; rw.mem = store;
+        ro.flags = REG_AF_READABLE | REG_AF_SKIP_DEFAULTS; ro.base = ro_base; ro.size = window ? 4 : 8; ro.read = reg_mem_read; ro.write = nullptr; ro.mem = window ? store + 2 : store;
+        auto reg = [&](size_t i, int type, uint32_t addr, uint64_t def) { entries[i].type = (RegisterType)type; entries[i].address = addr; entries[i].default_value = to_valueu(type, def, 0); entries[i].check.type = (RegisterValidatorType)rm::C_NONE; };
+        reg(0, rm::U16, rw_base + 0, 20); reg(1, rm::U32, rw_base + 2, 0x12345678u); reg(2, rm::U16, rw_base + 7, 0xa55a);
+        entries[3].type = REG_TYPE_INVALID;
+        t.area = areas; t.entry = entries;
+        register_make_bigendian(&t, big);
+        RegisterInit in = register_init(&t);
+        vp::count(); vp::cls("areas-sharing-backing-storage"); vp::nontrivial(vp::fnv(rep));
+        if (in.code != REG_INIT_SUCCESS) { vp::fail("mirror:init-refused", vp::fmt("a table with a read-only %s of its read/write area is refused: code %d", window ? "window into" : "mirror", (int)in.code), rep); continue; }
+        RegisterValue v; bool ok = true;
+        if (register_get(&t, 0, &v).code != REG_ACCESS_SUCCESS || v.value.u16 != 20) ok = false;
+        if (register_get(&t, 1, &v).code != REG_ACCESS_SUCCESS || v.value.u32 != 0x12345678u) ok = false;
+        if (register_get(&t, 2, &v).code != REG_ACCESS_SUCCESS || v.value.u16 != 0xa55a) ok = false;
+        uint16_t w2[2] = {0, 0};
+        if (register_block_read(&t, ro_base + (window ? 0 : 2), 2, w2).code != REG_ACCESS_SUCCESS || memcmp(w2, store + 2, 4) != 0) ok = false;
+        if (!ok) vp::fail("mirror:defaults-not-in-place", vp::fmt("after a successful register_init the registers of the read/write area do not hold their defaults (the table also has a read-only %s of that area %s it)", window ? "window into" : "mirror", mirror_first ? "in front of" : "behind"), rep);
+    }
+}
 static void top_area_phase() {
     for (uint32_t topsize : {1u, 2u, 8u, 0x100u}) for (int big = 0; big < 2; big++) for (int withreg = 0; withreg < 2; withreg++) {
         std::string rep = vp::fmt("top %u %d %d\n", topsize, big, withreg);
@@ -142,7 +175,7 @@ static void run() {
                                "default pushed across its bound / to a non-finite class / against its callback, range limits put in descending order, skip-defaults or write callback toggled, no areas), 1/4 valid tables, 1/4 from the raw grid "
                                "(0-3 areas with bases {0x10,0x14,0x18,0x20} x sizes {1,2,4,8} in any order, 0-3 registers of any type anywhere in 0x0e..0x2b); oracle = rule set of the model with indices, "
                                "post-conditions on storage, area runs and typed access, UNINITIALISED after failure; a third of the cases re-initialise a table object that carries the state of an earlier successful initialisation", n);
-    if (a.shard == 0) top_area_phase();
+    if (a.shard == 0) { top_area_phase(); mirror_phase(); }
     vp::Rng rng(a.seed * 12289 + a.shard);
     for (size_t i = 0; i < n && !vp::too_many_failures(); i++) {
         Case c; const char *label = "valid";
@@ -161,6 +194,7 @@ static void run() {
 }
 static bool replay(const std::string &text) {
     if (text.rfind("top ", 0) == 0) { top_area_phase(); return vp::stats().failures.empty(); }
+    if (text.rfind("mirror ", 0) == 0) { mirror_phase(); return vp::stats().failures.empty(); }
     Case c; std::vector<std::string> rest;
     if (!rm::parse(text, c.t, rest)) return false;
     for (auto &l : rest) if (l.rfind("reinit 1", 0) == 0) c.reinit = true;
